@@ -345,7 +345,7 @@ def main(argv):
     if drv is None:
         c.broken.append("extraction/driver build failed: " + dlog[-600:])
     else:
-        correspond(c, "fields model vs preprocess/fields.hh + fields.cc", drv, impl, lines, chunk=100000)
+        correspond(c, "fields model vs preprocess/fields.hh + fields.cc", drv, impl, ["C"] + lines, chunk=100000)
 
     # ---------------- direct oracle on the implementation: cut semantics
     rc, out, err = run_lines(impl, lines)
@@ -409,7 +409,8 @@ def main(argv):
         dl = bytes([d])
         data = l1 + b"\n" + l2 + b"\n"
         c.count(("pair", spec, d, l1, l2), bucket="tool/pair/" + ("same-selected" if same else "different-selected") + ("+trailing" if l1.endswith(dl) or l2.endswith(dl) else ""))
-        st, so, se = run_tool([repo_bin("dedupe"), "-f", spec.decode(), "-d", dl.decode("latin1")], stdin=data, timeout=60)
+        dargs = ["-f", spec.decode()] + ([] if d == 9 and len(l1) % 2 == 0 else ["-d", dl.decode("latin1")])   # TAB is the default
+        st, so, se = run_tool([repo_bin("dedupe")] + dargs, stdin=data, timeout=60)
         c.cov["traces_validated_against_impl"] += 1
         want = l1 + b"\n" if same else data
         if l1 == l2:
@@ -417,11 +418,12 @@ def main(argv):
         if st != 0 or so != want:
             c.violation("tool/dedupe-key: dedupe -f %s -d %r on lines %r and %r printed %r (status %s); their selected fields are %s so the second line must be %s" % (
                 spec.decode(), dl, l1, l2, so, st, "identical" if same else "different", "dropped" if same else "kept"),
-                {"op": "dedupe", "kind": "pair", "args": ["-f", spec.decode(), "-d", dl.decode("latin1")], "stdin_hex": hexs(data), "stdout_hex": hexs(so), "expected_hex": hexs(want)})
+                {"op": "dedupe", "kind": "pair", "args": ["-f", spec.decode(), "-d", dl.decode("latin1")], "actual_args": dargs, "stdin_hex": hexs(data), "stdout_hex": hexs(so), "expected_hex": hexs(want)})
     for spec, d, l1, l2, same in pairs[:40 if c.tier == "quick" else 300]:
         dl = bytes([d])
         data = l1 + b"\n" + l2 + b"\n"
-        st, so, se = run_tool([repo_bin("cache"), "-k", spec.decode(), "-t", dl.decode("latin1"), "cat"], stdin=data, timeout=60)
+        cargs = ["-k", spec.decode()] + ([] if d == 9 and len(l1) % 2 == 1 else ["-t", dl.decode("latin1")])
+        st, so, se = run_tool([repo_bin("cache")] + cargs + ["cat"], stdin=data, timeout=60)
         c.cov["traces_validated_against_impl"] += 1
         c.count(("cache-pair", spec, d, l1, l2), bucket="tool/cache-pair")
         want = l1 + b"\n" + (l1 if same else l2) + b"\n"
